@@ -822,7 +822,24 @@ func (m *Mem) mergeStates(sts []*State, conds []Term) *State {
 		for i := len(sts) - 1; i >= 0; i-- {
 			v, ok := sts[i].ghost[k]
 			if !ok {
-				continue
+				// the path has not touched this ghost value yet: it still has its value at function entry.
+				// (Skipping the path - as an earlier version did - let the merged value be the one of the
+				// paths that did touch it: an event recorded on one branch counted on all.)
+				v, ok = m.heap0["ghost0|"+k]
+				if !ok {
+					if have {
+						v = m.c.Fresh("ghost_"+sanitize(k), cur.Sort)
+					} else {
+						// initial value needs a sort: take it from any state that has the key
+						for _, s2 := range sts {
+							if v2, ok2 := s2.ghost[k]; ok2 {
+								v = m.c.Fresh("ghost_"+sanitize(k), v2.Sort)
+								break
+							}
+						}
+					}
+					m.heap0["ghost0|"+k] = v
+				}
 			}
 			if !have {
 				cur, have = v, true
